@@ -364,7 +364,11 @@ pub fn serve(sock_path: &str) -> ! {
                         std::process::exit(2);
                     }
                 };
-                memo.insert(keyb, a.clone());
+                // large-style requests (haystacks of many KB) are not memoised: they hardly
+                // ever recur across runs and would only grow this process
+                if keyb.len() <= 4096 {
+                    memo.insert(keyb, a.clone());
+                }
                 (a, true)
             };
             if write_msg(stream, &[&ans, &[miss as u8]]).is_err() {
